@@ -4,6 +4,7 @@ import (
 	"bytes"
 	"fmt"
 	"sort"
+	"sync/atomic"
 	"testing"
 
 	"pgregory.net/rapid"
@@ -31,6 +32,11 @@ type c13Case struct {
 	End     int
 	// Bulk adds this many extra keys (created once each) so that streamed batches fill up (batch size 300)
 	Bulk int `json:"bulk,omitempty"`
+	// FaultNext > 0 (mode shim-faults): while the unlimited range read runs, the engine fails the FaultNext-th
+	// iterator step once (a transient error: the scanner's own retry must still produce the exact answer)
+	FaultNext int `json:"faultNext,omitempty"`
+	// FaultStream: the same transient error during an additional whole-range stream
+	FaultStream bool `json:"faultStream,omitempty"`
 }
 
 var c13Foreign = []string{"a/a", "a/b/", "a~", "b0", "0", "zz"}
@@ -56,6 +62,14 @@ func genC13(t *rapid.T) interface{} {
 	}
 	if DrawBool(t, 6, "bulk") {
 		c.Bulk = rapid.SampledFrom([]int{290, 299, 300, 301, 320, 610}).Draw(t, "nbulk")
+	}
+	if c.Mode == "shim-faults" {
+		c.FaultNext = rapid.IntRange(1, 30).Draw(t, "faultNext")
+		if DrawBool(t, 50, "bulkF") {
+			c.Bulk = rapid.SampledFrom([]int{40, 301, 320, 610}).Draw(t, "nbulkF")
+			c.FaultNext = rapid.IntRange(1, 2*c.Bulk+40).Draw(t, "faultNextBulk") // two records per key
+		}
+		c.FaultStream = DrawBool(t, 50, "faultStream")
 	}
 	c.Shuffle = rapid.SliceOfN(rapid.IntRange(0, 1000), 6, 6).Draw(t, "shuffle")
 	c.RevSel = rapid.OneOf(rapid.Just(-1), rapid.IntRange(-2, 30)).Draw(t, "revsel")
@@ -283,8 +297,28 @@ func runC13(ci interface{}, st *CaseStats) error {
 	st.Labelf("inner-borders:%d", nInner)
 
 	// 1. unlimited range read
+	var nextCount int64
+	var armed int32
+	if c.FaultNext > 0 && env.Shim != nil {
+		env.Shim.OnNext = func(iterIdx, pos int) Decision {
+			if atomic.LoadInt32(&armed) == 1 && atomic.AddInt64(&nextCount, 1) == int64(c.FaultNext) {
+				atomic.StoreInt32(&armed, 0)
+				return FailNoApply
+			}
+			return Pass
+		}
+		atomic.StoreInt32(&armed, 1)
+	}
 	if _, err := env.CheckList(a, b, rev, 0); err != nil {
-		return fmt.Errorf("partitioned List: %v", err)
+		return fmt.Errorf("partitioned List (transient iterator error at step %d: %v): %v", c.FaultNext, c.FaultNext > 0, err)
+	}
+	if c.FaultNext > 0 {
+		if atomic.LoadInt32(&armed) == 0 {
+			st.Label("transient-iterator-error-during-list")
+		} else {
+			st.Label("fault-not-reached")
+		}
+		atomic.StoreInt32(&armed, 0)
 	}
 	// 2. count (served at the current revision)
 	if err := env.CheckCount(a, b); err != nil {
@@ -312,6 +346,22 @@ func runC13(ci interface{}, st *CaseStats) error {
 			}
 		}
 		return kvs, nil
+	}
+	if c.FaultStream && c.FaultNext > 0 && env.Shim != nil {
+		atomic.StoreInt64(&nextCount, 0)
+		atomic.StoreInt32(&armed, 1)
+		kvs, err := stream(ia, ib, "whole-range stream with a transient iterator error")
+		fired := atomic.LoadInt32(&armed) == 0
+		atomic.StoreInt32(&armed, 0)
+		if err != nil {
+			return err
+		}
+		if fired {
+			st.Label("transient-iterator-error-during-stream")
+		}
+		if err := compareMultiset(kvs, want, fmt.Sprintf("whole-range stream [%q,%q) at %d with a transient iterator error at step %d (fired=%v)", a, b, use, c.FaultNext, fired)); err != nil {
+			return err
+		}
 	}
 	kvs, err := stream(ia, ib, "whole-range stream")
 	if err != nil {
@@ -359,14 +409,33 @@ func runC13(ci interface{}, st *CaseStats) error {
 	return nil
 }
 
+// probeC13StreamRetry: a worker of a streamed range hits a transient iterator error after it has sent a full batch;
+// its retry must not deliver those keys again
+func probeC13StreamRetry() (bool, string) {
+	c := &c13Case{Mode: "shim-faults", Keys: []string{"a", "b"}, Hist: []WOp{{Kind: "create", K: 0}, {Kind: "create", K: 1}, {Kind: "update", K: 0, Exp: "ok"}},
+		Shuffle: []int{1, 2, 3, 4, 5, 6}, RevSel: -1, Start: -1, End: -1, Bulk: 610, FaultNext: 700, FaultStream: true}
+	err := runC13(c, &CaseStats{})
+	if err == nil {
+		return false, ""
+	}
+	if _, inc := err.(*Inconclusive); inc {
+		return false, err.Error()
+	}
+	return true, err.Error()
+}
+
 var specC13 = &Spec{
-	ID:          "C13",
-	Rule:        "case = history of 3..24 writes over 2..6 prefix-related keys, 0..5 partition borders (index record of a stored key, any revision of a stored key — stored or not —, well-formed internal keys of keys that are not stored), a shuffle of the partition order, a read revision and a range; 6% of the cases add 290..610 further keys so that streamed batches fill up; mode shim = memkv with the borders injected through GetPartitions in shuffled order, mode regions = TiKV mock cluster split into regions at the same borders (real ScanRegions path). Oracle = reference model snapshot: unlimited List exact, Count, whole-range stream and the concatenation of streams over advertised partitions as multisets with multiplicity 1 and the right version; every data batch names the read revision; exactly one terminator, no error, nothing after it. Non-trivial = a border strictly inside one key's version run with versions <= R on both sides; distinct = SHA-1 of the case",
-	Gen:         genC13,
-	New:         func() interface{} { return &c13Case{} },
-	Run:         runC13,
-	Assumptions: []string{"borders are well-formed internal keys (the forms an engine that splits at existing keys can produce)"},
-	Engines:     []string{EngMem + "+shim", EngTiKV + "+regions"},
+	ID:   "C13",
+	Rule: "case = history of 3..24 writes over 2..6 prefix-related keys, 0..5 partition borders (index record of a stored key, any revision of a stored key — stored or not —, well-formed internal keys of keys that are not stored), a shuffle of the partition order, a read revision and a range; 6% of the cases add 290..610 further keys so that streamed batches fill up; mode shim = memkv with the borders injected through GetPartitions in shuffled order, mode regions = TiKV mock cluster split into regions at the same borders (real ScanRegions path), mode shim-faults = mode shim plus one transient iterator error at a generated step of the unlimited range read and of a whole-range stream (the scanner's own retry must leave the answer exact; 50% of these cases hold 40..610 extra keys so that the error falls after batches were already streamed). Oracle = reference model snapshot: unlimited List exact, Count, whole-range stream and the concatenation of streams over advertised partitions as multisets with multiplicity 1 and the right version; every data batch names the read revision; exactly one terminator, no error, nothing after it. Non-trivial = a border strictly inside one key's version run with versions <= R on both sides; distinct = SHA-1 of the case",
+	Gen:  genC13,
+	New:  func() interface{} { return &c13Case{} },
+	Run:  runC13,
+	Probes: map[string]func() (bool, string){
+		"stream-retry-resends-batches": probeC13StreamRetry,
+	},
+	Assumptions: []string{"borders are well-formed internal keys (the forms an engine that splits at existing keys can produce)",
+		"mode shim-faults adds one transient iterator error (the engine fails one iterator step once) to the unlimited range read and to a whole-range stream; a read that still answers successfully must answer exactly"},
+	Engines: []string{EngMem + "+shim", EngTiKV + "+regions"},
 }
 
 func TestC13(t *testing.T) { RunProperty(t, specC13) }
